@@ -205,4 +205,32 @@ def _c18(tier="quick", seed=0):
     return _attach(_c18_raw(tier, seed), "handler-name-bound", _replay_load_calibration)
 
 
-EXTRA_CHECKS.update({"C18": _c18, "C16": _c16, "C20": _c20, "C09": _c09})
+_c08_raw = _c08
+
+
+def _c08(tier="quick", seed=0):
+    out = _c08_raw(tier, seed)
+    # ownership on construction: the model keeps deep copies of what it is given
+    out += flow.attribute_assigned_from("model:Model.__init__", "progset", "sc.dcp(progset)")
+    out += flow.attribute_assigned_from("model:Model.__init__", "program_instructions", "sc.dcp(program_instructions)")
+    out += flow.attribute_assigned_from("model:Model.__init__", "framework", "sc.dcp(framework)")
+    return out
+
+
+_c15_raw = _c15
+
+
+def _c15(tier="quick", seed=0):
+    out = _c15_raw(tier, seed)
+    out += flow.call_present_after("calibration:calibrate", "_update_parset(args['parset'], x1, pars_to_adjust)", "Try", "the returned parameter set carries the optimiser's best point, not the last trial")
+    return out
+
+
+_c20_prev = _c20
+
+
+def _c20(tier="quick", seed=0):
+    return _c20_prev(tier, seed) + flow.augassign_divisor_matches_generator("plotting:PlotData.__init__", "vals")
+
+
+EXTRA_CHECKS.update({"C18": _c18, "C16": _c16, "C20": _c20, "C09": _c09, "C08": _c08, "C15": _c15})
